@@ -88,7 +88,8 @@ type RunResult struct {
 	Tape         []uint32
 	Trace        []string
 	Abstract     []string // abstract states reached (coverage measure)
-	Inconclusive string   // non-empty: run could not be judged (never a violation)
+	Params       map[string]string
+	Inconclusive string // non-empty: run could not be judged (never a violation)
 }
 
 // Aggregate is what a worker writes for the driver.
